@@ -1402,8 +1402,12 @@ def _gather(self: Engine, st: State, args, kwargs, fn) -> List[Res]:
         self.assumed_used = set()
     self.assumed_used.add("A-ASYNCIO")
     if kwargs:
-        # return_exceptions=True changes what gather does with a failing awaitable: not modelled
-        raise Unsupported(f"asyncio.gather with keyword arguments {sorted(kwargs)}")
+        # return_exceptions=True changes what gather does with a failing awaitable: not modelled; a literally false
+        # flag is the default behaviour
+        re_flag = kwargs.get("return_exceptions")
+        if not (set(kwargs) == {"return_exceptions"} and isinstance(re_flag, SV)
+                and z3.is_false(z3.simplify(self.truth(st, re_flag)))):
+            raise Unsupported(f"asyncio.gather with keyword arguments {sorted(kwargs)}")
     return [(st, CoroV(None, list(args), {}, kind="gather"))]
 
 
